@@ -21,6 +21,10 @@ RULE = ("private keys {1, 2, n-1, n-2, (n-1)/2, random, leading-zero} x both com
         "all fourteen sighash flags; PublicKey::from_hex text variants; ChainParams::{mainnet,testnet,regtest,stn,default}; "
         "hashes whose hex looks numeric or like opcodes; from_random (behavioural); every pub fn of private_key.rs, public_key.rs and "
         "address/mod.rs except sign/verify_message (C05) and encrypt/decrypt_message (C11) is driven by some op; "
+        "call histories on ONE object (key.history / pub.history / addr.history): every (observer, mutator, observer) triple and "
+        "observe-all / mutate chains of length 2-3 over compress_public_key / clone / WIF re-import, to_compressed / to_decompressed / "
+        "clone, set_chain_params chains (mainnet -> X -> mainnet, non-mainnet string -> mainnet, named chains) / clone / re-parse, with "
+        "the specification computed from the final field values only; "
         "non-trivial = the model returns a value (not an early error); distinct by (op, arguments)")
 TRUSTED = ["hand-written Gallina model coq/Model/Keys.v of src/keypair/{private_key,public_key}.rs and src/address/mod.rs (tied by this "
            "correspondence run), including its reading of elliptic_curve SecretKey::from_be_bytes, sec1 EncodedPoint::from_bytes/compress, "
@@ -330,6 +334,63 @@ def generate(rng, tier):
                 A("addr.unlocking", pre, h.hex(), own.hex(), der(*sigs[i]).hex(), "c1")
                 A("addr.unlocking", pre, h.hex(), other_form.hex(), der(*sigs[i]).hex(), "41")
                 A("addr.unlocking", pre, h.hex(), foreign.hex(), der(*sigs[i]).hex(), "41")
+    # ============================================================ call histories on ONE object
+    # PrivateKey: observe -> mutate -> observe, every (observer, mutator, observer) triple, and observe-all / mutate chains
+    KO, KM = "pwgfakh", "culW"
+    hk = [kb(ks[6]).hex(), kb(153).hex(), kb(2 ** 248 - 1).hex()] + ([kb(d).hex() for d in ks[:6]] if thorough else [])
+    n = 0
+    for o1 in KO:
+        for m in ("c", "u"):
+            for o2 in KO:
+                A("key.history", hk[n % len(hk)], o1 + m + o2)
+                n += 1
+    for key in hk:
+        for m1 in KM:
+            A("key.history", key, KO + m1 + KO[::-1])
+            A("key.history", key, m1 + KO)
+            for m2 in KM:
+                A("key.history", key, "p" + m1 + "pa" + m2 + "pwk")
+                if thorough:
+                    A("key.history", key, KO + m1 + KO + m2 + KO)
+        A("key.history", key, "pupcpupWplp"); A("key.history", key, "uWpcWp"); A("key.history", key, "aukcak"); A("key.history", key, "fgufgcfg")
+    # PublicKey: to_compressed / to_decompressed / clone chains with every observation after each step
+    PO = "bxah"
+    pts_h = [pmul(ks[6], G), pmul(153, G), pmul(122, G)] + ([pmul(d, G) for d in ks[:5]] if thorough else [])
+    for pt in pts_h:
+        for c in (True, False):
+            e = sec1(pt, c).hex()
+            for m1 in "cdl":
+                A("pub.history", e, PO + m1 + PO)
+                for m2 in "cdl":
+                    A("pub.history", e, "b" + m1 + "ba" + m2 + "bh")
+                    if thorough:
+                        for m3 in "cd":
+                            A("pub.history", e, PO + m1 + PO + m2 + PO + m3 + PO)
+            A("pub.history", e, "acadacah"); A("pub.history", e, "dcdcb"); A("pub.history", e, "hdhch")
+    A("pub.history", (b"\x02" + (5).to_bytes(32, "big")).hex(), "bcb")
+    # P2PKHAddress: set_chain_params chains (mainnet -> X -> mainnet, non-mainnet string -> mainnet, named chains), clone,
+    # re-parse; prefix / string / locking script / hash observed after every step
+    AO = "o.k.h"
+    muts = ["m", "t", "s00", "s05", "s6f", "s90", "f", "l", "r", "n"]
+    hh = hashes[22]
+    starts = [("s", text(address(0x6f, hh))), ("s", text(address(0x00, hashes[1]))), ("s", text(address(0xc4, hashes[20]))), ("h", hh.hex())]
+    n = 0
+    for m1 in muts:
+        for st in starts:
+            A("addr.history", st[0], st[1], "o." + m1 + "." + AO)
+        for m2 in muts:
+            st = starts[n % 4]; n += 1
+            A("addr.history", st[0], st[1], AO + "." + m1 + "." + AO + "." + m2 + "." + AO)
+            if thorough:
+                for st in starts:
+                    A("addr.history", st[0], st[1], m1 + "." + m2 + ".o")
+    for x, y in [("m", "t"), ("t", "m"), ("s00", "s6f"), ("s6f", "s00"), ("s90", "m"), ("m", "s05"), ("n", "s00"), ("f", "m"), ("t", "f")]:
+        for st in starts:
+            A("addr.history", st[0], st[1], "o." + x + ".o." + y + ".o." + x + ".o.k")
+    A("addr.history", "s", text("1111111111111111111114oLvT2"), "o.t.o.m.o.f.o")
+    A("addr.history", "h", hh[:19].hex(), "o.m.o")
+    A("addr.history", "s", text(address(0x6f, hh)[:-1]), "o.m.o")
+
     # every sighash flag value, signatures whose DER has leading-zero / high-bit integers
     for fl in (0x40, 0x01, 0x02, 0x03, 0x80, 0x41, 0x42, 0x43, 0xc1, 0xc2, 0xc3, 0x81, 0x82, 0x83):
         A("pub.unlock_own", pub_of(ks[6], True).hex(), "6f", der(2 ** 255 + 1, 2 ** 247).hex(), "%02x" % fl)
